@@ -125,6 +125,8 @@ PROPS["C08"] = {
     "jobs": [
         {"name": "cache_put", "pkg": "root", "entry": "VerifCachePut", "reach": ["replaced", "rejected", "already-cached"],
          "params": {"quick": {"K": 2, "KL": 1, "T": 2}, "thorough": {"K": 3, "KL": 1, "T": 3}}},
+        {"name": "cache_put_concurrent", "pkg": "root", "entry": "VerifCachePutConcurrent", "reach": ["raced"],
+         "preempts": {"quick": 2, "thorough": 3}, "params": {"quick": {}, "thorough": {}}},
         {"name": "cache_del", "pkg": "root", "entry": "VerifCacheDel", "reach": ["deleted"],
          "params": {"quick": {"K": 2, "KL": 1, "T": 2}, "thorough": {"K": 3, "KL": 1, "T": 2}}},
     ],
